@@ -288,8 +288,8 @@ def item_npy_body(repo, out):
     fput = _func(_class(t3, 'S3ChunkStore', rel3), 'put_chunk', rel3)
     if not any(ast.dump(n) == ast.dump(ast.parse('npy_header, chunk = npy_header_and_body(chunk)').body[0]) for n in fput.body):
         raise TranslateError('S3ChunkStore.put_chunk does not call npy_header_and_body(chunk)')
-    if not _has_node(fput, '_Multipart([npy_header, memoryview(chunk.reshape(-1))])'):
-        raise TranslateError('S3ChunkStore.put_chunk: body is not [npy_header, memoryview(chunk.reshape(-1))]')
+    if not _has_node(fput, '_Multipart([npy_header, memoryview(chunk.reshape(-1).view(np.uint8))])'):
+        raise TranslateError('S3ChunkStore.put_chunk: body is not [npy_header, memoryview(chunk.reshape(-1).view(np.uint8))]')
     # read_array: Fortran-ordered objects are reshaped to the reversed shape and transposed
     fr = [n for n in t3.body if isinstance(n, ast.FunctionDef) and n.name == 'read_array']
     if len(fr) != 1:
